@@ -921,4 +921,165 @@ theorem validateNodeCancel_np {L : Ledger} {O tx fork f i s} (hI : LedgerInv L)
   · simp at h
 
 
+def IsOrdinaryUtxo (u : Utxo) : Prop := u.type = otScript ∨ u.type = otNodeRemove
+
+def keysOf (L : Ledger) (inp : Input) : List Id :=
+  match L.utxo inp.hash inp.index with
+  | some u => u.keys
+  | none => []
+
+/-- the concatenated key list `allKeys` of validateInputs -/
+def allKeysOf (L : Ledger) (ins : List Input) : List Id := (ins.map (keysOf L)).flatten
+
+/-- where input `j`'s keys start in the concatenated list -/
+def offsetAt (L : Ledger) (ins : List Input) (j : Nat) : Nat := (allKeysOf L (ins.take j)).length
+
+theorem loopSpec_keys {L tx tt} : ∀ (ins : List Input) (k : Nat) (a a' : InAcc),
+    LoopSpec L tx tt k ins a a' →
+    a'.allKeys = a.allKeys ++ allKeysOf L ins ∧ (∀ e ∈ a.keySigs, e ∈ a'.keySigs) ∧
+    (a'.keySigs = [] → a.keySigs = []) ∧
+    ∀ j inp, ins[j]? = some inp → ∃ u ks, L.utxo inp.hash inp.index = some u ∧
+      validateUTXO (k + j) u tx tt (a.allKeys.length + offsetAt L ins j) = .ok ks ∧
+      (∀ e ∈ ks, e ∈ a'.keySigs) := by
+  intro ins
+  induction ins with
+  | nil => intro k a a' h; simp [LoopSpec] at h; subst h; simp [allKeysOf]
+  | cons x rest ih =>
+    intro k a a' h
+    obtain ⟨_, _, _, u, ks, hu, _, _, hv, hrest⟩ := h
+    obtain ⟨h1, h2, h3, h4⟩ := ih _ _ _ hrest
+    have hk : keysOf L x = u.keys := by simp [keysOf, hu]
+    refine ⟨?_, ?_, ?_, ?_⟩
+    · simp [h1, accStep, allKeysOf, hk]
+    · intro e he; exact h2 e (by simp [accStep, he])
+    · intro hn; have := h3 hn; simp [accStep] at this; exact this.1
+    · intro j inp hj
+      cases j with
+      | zero =>
+        simp at hj; subst hj
+        refine ⟨u, ks, hu, ?_, ?_⟩
+        · simpa [offsetAt, allKeysOf] using hv
+        · intro e he; exact h2 e (by simp [accStep, he])
+      | succ j =>
+        simp at hj
+        obtain ⟨u', ks', hu', hv', hs'⟩ := h4 j inp hj
+        refine ⟨u', ks', hu', ?_, hs'⟩
+        have : (accStep a x u ks).allKeys.length + offsetAt L rest j = a.allKeys.length + offsetAt L (x :: rest) (j + 1) := by
+          simp [accStep, offsetAt, allKeysOf, hk]; omega
+        rw [← this, show k + (j + 1) = k + 1 + j by omega]
+        exact hv'
+
+/-- the per-input signature-map branch of validateUTXO -/
+theorem validateUTXO_maps {k u tx tt off ks} (h : validateUTXO k u tx tt off = .ok ks) (hu : IsOrdinaryUtxo u)
+    (hagg : tx.agg = none) :
+    ∃ m, (tx.sigs.getD [])[k]? = some m ∧ (∀ p ∈ m, p.1 < u.keys.length) ∧ scriptFormatOk u.script = true ∧
+      scriptThreshold u.script ≤ m.length ∧ ks = m.map (fun p => (u.keys.getD p.1 0, some p.2)) := by
+  unfold validateUTXO at h
+  have hc : (u.type == otScript || u.type == otNodeRemove) = true := by
+    rcases hu with h' | h' <;> simp [h']
+  rw [if_pos hc, hagg] at h
+  simp only at h
+  split at h
+  · simp at h
+  · rename_i m hm
+    simp only [bind_ok, guardRej_ok, pure_ok, scriptValidate] at h
+    obtain ⟨_, h1, _, h2, h3⟩ := h
+    simp at h1 h2
+    exact ⟨m, hm, fun p hp => h1 p.1 p.2 hp, h2.1, h2.2, h3.symm⟩
+
+/-- the aggregate branch of validateUTXO -/
+theorem validateUTXO_agg {k u tx tt off ks signers sig} (h : validateUTXO k u tx tt off = .ok ks)
+    (hu : IsOrdinaryUtxo u) (hagg : tx.agg = some (signers, sig)) :
+    signersOk signers = true ∧ scriptFormatOk u.script = true ∧
+    scriptThreshold u.script ≤ (aggCollect u.keys off signers).length ∧
+    ks = (aggCollect u.keys off signers).map (fun k => (k, none)) := by
+  unfold validateUTXO at h
+  have hc : (u.type == otScript || u.type == otNodeRemove) = true := by
+    rcases hu with h' | h' <;> simp [h']
+  rw [if_pos hc, hagg] at h
+  simp only [bind_ok, guardRej_ok, pure_ok, scriptValidate] at h
+  obtain ⟨_, h1, _, h2, h3⟩ := h
+  simp at h1 h2
+  exact ⟨h1, h2.1, h2.2, h3.symm⟩
+
+def inRange (off len m : Nat) : Bool := off ≤ m && m < off + len
+
+theorem incFrom_lt : ∀ (ms : List Nat) (m : Nat), incFrom (some m) ms = true → ∀ x ∈ ms, m < x := by
+  intro ms
+  induction ms with
+  | nil => intro m _ x hx; simp at hx
+  | cons y ys ih =>
+    intro m h x hx
+    simp [incFrom] at h
+    rcases List.mem_cons.1 hx with rfl | hx
+    · exact h.1.1
+    · have := ih y h.2 x hx; omega
+
+theorem incFrom_tail : ∀ (ms : List Nat) (p : Option Nat) (m : Nat), incFrom p (m :: ms) = true →
+    incFrom (some m) ms = true := by
+  intro ms p m h
+  cases p <;> simp [incFrom] at h <;> exact h.2
+
+/-- on a strictly increasing signer list the loop with `break` counts exactly the signers in range -/
+theorem aggCollect_length (keys : List Id) (off : Nat) : ∀ (ms : List Nat) (p : Option Nat), incFrom p ms = true →
+    (aggCollect keys off ms).length = (ms.filter (inRange off keys.length)).length := by
+  intro ms
+  induction ms with
+  | nil => intro p _; simp [aggCollect]
+  | cons m ms ih =>
+    intro p h
+    have ht := incFrom_tail ms p m h
+    unfold aggCollect
+    split
+    · rename_i hge
+      have : ∀ x ∈ m :: ms, inRange off keys.length x = false := by
+        intro x hx
+        rcases List.mem_cons.1 hx with rfl | hx
+        · simp [inRange]; omega
+        · have := incFrom_lt ms m ht x hx; simp [inRange]; omega
+      rw [List.filter_eq_nil_iff.2 (by simpa using this)]
+    · split
+      · rename_i hlt
+        have : inRange off keys.length m = false := by simp [inRange]; omega
+        simp [this, ih _ ht]
+      · have : inRange off keys.length m = true := by simp [inRange]; omega
+        simp [this, ih _ ht]
+
+
+theorem validateInputs_verified {L O tx tt fork f i a}
+    (h : validateInputs L O tx tt fork = .ok (f, i))
+    (hl : inputsLoop L tx tt fork 0 tx.inputs {} = .ok (.full a)) :
+    a.keySigs = [] ∨
+    match tx.agg with
+    | some (signers, sig) => O.aggVerify a.allKeys signers sig = true
+    | none => ∀ e ∈ a.keySigs, ∃ s, e.2 = some s ∧ O.verify e.1 s = true := by
+  unfold validateInputs at h
+  simp only [bind_ok] at h
+  obtain ⟨r, hr, h⟩ := h
+  rw [hl] at hr
+  cases hr
+  simp only at h
+  split at h
+  · rename_i hc; simp at hc; exact Or.inl hc.1
+  · split at h
+    · simp at h
+    · right
+      split at h
+      · rename_i signers sig hagg
+        rw [hagg]
+        split at h
+        · assumption
+        · simp at h
+      · rename_i hagg
+        rw [hagg]
+        split at h
+        · rename_i hall
+          intro e he
+          have := List.all_eq_true.1 hall e he
+          split at this
+          · rename_i s hs; exact ⟨s, hs, this⟩
+          · simp at this
+        · simp at h
+
+
 end Mixin.Validate
